@@ -317,9 +317,12 @@ def run_schedule(pool_index, seed, nthreads, prob, plans, st, controlled=True, p
 
 
 def shards(tier, seed):
-    return [('ctl', p, k, tier, seed) for p in (0, 2, 4, 5) for k in range(3)] + \
-           [('free', p, 0, tier, seed) for p in (0, 2, 4, 5)] + \
-           [('pre', p, k, tier, seed) for p in (0, 2, 4, 5) for k in range(3)]
+    # pool 6: identity selectors are extended at run time when xsi:type-substituted content is met (shared state
+    # written DURING validation, not only during the build)
+    return [('ctl', p, k, tier, seed) for p in (0, 2, 4, 5, 6) for k in range(3)] + \
+           [('free', p, 0, tier, seed) for p in (0, 2, 4, 5, 6)] + \
+           [('pre', p, k, tier, seed) for p in (0, 2, 4, 5) for k in range(3)] + \
+           [('ctl', 6, k, tier, seed) for k in range(3, 8)]
 
 
 def full_plan(pool_index):
